@@ -35,7 +35,7 @@ var keyModes = []string{"none", "tls", "custom", "setter", "both"}
 // genKeyCfg draws how one key slot is configured. ECDSA keys are possible only through setters.
 func genKeyCfg(t *rapid.T, label string, fieldKey, setterKey string, allowEC bool) h.KeyCfg {
 	mode := rapid.SampledFrom(keyModes).Draw(t, label+"Mode")
-	k := h.KeyCfg{Mode: mode, Field: h.CertRef{Key: fieldKey, Window: "wide"}, Setter: h.CertRef{Key: setterKey, Window: "wide"}}
+	k := h.KeyCfg{Mode: mode, Field: h.CertRef{Key: fieldKey, Window: rapid.SampledFrom(h.SPWindows).Draw(t, label+"FieldCert")}, Setter: h.CertRef{Key: setterKey, Window: rapid.SampledFrom(h.SPWindows).Draw(t, label+"SetterCert")}}
 	if allowEC && (mode == "setter" || mode == "both") && rapid.IntRange(0, 3).Draw(t, label+"EC") == 0 {
 		k.Setter = h.CertRef{Key: "S3", Window: "wide"}
 	}
@@ -675,14 +675,19 @@ func TestC13_Grid(t *testing.T) {
 	for _, em := range keyModes {
 		for _, sm := range keyModes {
 			for _, kind := range []string{"authn-doc", "authn-str", "logout-req", "logout-resp"} {
-				sp := h.BaseSP()
-				sp.Enc = h.KeyCfg{Mode: em, Field: h.CertRef{Key: "E1", Window: "wide"}, Setter: h.CertRef{Key: "E2", Window: "wide"}}
-				sp.Sig = h.KeyCfg{Mode: sm, Field: h.CertRef{Key: "S1", Window: "wide"}, Setter: h.CertRef{Key: "S2", Window: "wide"}}
-				if _, ok := expectedSigner(sp); !ok {
-					continue
+				for wi, w := range []string{"wide", "wide-nl", "wide-sp", "wide-nul"} {
+					if wi > 0 && kind != []string{"authn-doc", "authn-str", "logout-req", "logout-resp"}[(wi+len(em)+len(sm))%4] {
+						continue // the odd-byte certificates: one kind per key configuration
+					}
+					sp := h.BaseSP()
+					sp.Enc = h.KeyCfg{Mode: em, Field: h.CertRef{Key: "E1", Window: w}, Setter: h.CertRef{Key: "E2", Window: w}}
+					sp.Sig = h.KeyCfg{Mode: sm, Field: h.CertRef{Key: "S1", Window: w}, Setter: h.CertRef{Key: "S2", Window: w}}
+					if _, ok := expectedSigner(sp); !ok {
+						continue
+					}
+					sp.SignRequests = true
+					cases = append(cases, OutCase{SP: sp, Kind: kind, Signed: true, NameID: "user@example.com", Session: "_s1", Status: saml2.StatusCodeSuccess, ReqID: "_r1"})
 				}
-				sp.SignRequests = true
-				cases = append(cases, OutCase{SP: sp, Kind: kind, Signed: true, NameID: "user@example.com", Session: "_s1", Status: saml2.StatusCodeSuccess, ReqID: "_r1"})
 			}
 		}
 	}
